@@ -5,7 +5,6 @@ import (
 	"fmt"
 	"os"
 	"path/filepath"
-	"sort"
 	"sync"
 	"sync/atomic"
 
@@ -124,55 +123,5 @@ func SpecOf(m *model.Client, b Batch) (sx.V, error) {
 	if code, bad := sx.IsErr(a); bad {
 		return a, fmt.Errorf("model error %d on spec_of_batch", code)
 	}
-	return PatchShapes(a, b), nil
-}
-
-// PatchShapes extends the model's specification of a batch for geo-shape fields, which the Coq
-// specification does not know: the encoded shape of a document's geo-shape field is one more doc
-// value of that (document, field) whenever the field is a doc-value field and the document has a
-// term in it (section_inverted_text_index.go: extraDocValues).  Harness-side, unverified.
-func PatchShapes(spec sx.V, b Batch) sx.V {
-	type key struct {
-		f string
-		d uint64
-	}
-	shapes := map[key]string{}
-	for d, doc := range b {
-		for _, f := range doc.Fields {
-			if f.Shape != nil {
-				shapes[key{f.Name, uint64(d)}] = string(f.Shape) // the last instance wins
-			}
-		}
-	}
-	if len(shapes) == 0 {
-		return spec
-	}
-	const pDV = 5
-	out := sx.V{K: spec.K, L: append([]sx.V(nil), spec.L...)}
-	var nfs []sx.V
-	for _, fdv := range spec.L[pDV].L {
-		name := string(fdv.L[0].B)
-		var nds []sx.V
-		for _, de := range fdv.L[1].L {
-			sh, ok := shapes[key{name, de.L[0].N}]
-			if !ok || len(de.L[1].L) == 0 {
-				nds = append(nds, de)
-				continue
-			}
-			var ts []string
-			for _, t := range de.L[1].L {
-				ts = append(ts, string(t.B))
-			}
-			ts = append(ts, sh)
-			sort.Strings(ts)
-			tv := make([]sx.V, len(ts))
-			for i, t := range ts {
-				tv[i] = sx.S(t)
-			}
-			nds = append(nds, sx.L(de.L[0], sx.List(tv)))
-		}
-		nfs = append(nfs, sx.L(fdv.L[0], sx.List(nds)))
-	}
-	out.L[pDV] = sx.List(nfs)
-	return out
+	return a, nil
 }
